@@ -25,9 +25,9 @@ struct PropSpec {
 }
 
 const PROPS: &[PropSpec] = &[
-    PropSpec { id: "C28", profile: "bt", level: "exploration", quick_runs: 6000, thorough_runs: 60000 },
-    PropSpec { id: "C29", profile: "bt", level: "exploration", quick_runs: 6000, thorough_runs: 60000 },
-    PropSpec { id: "C34", profile: "fl", level: "exploration", quick_runs: 6000, thorough_runs: 80000 },
+    PropSpec { id: "C28", profile: "bt", level: "exploration", quick_runs: 2500, thorough_runs: 6000 },
+    PropSpec { id: "C29", profile: "bt", level: "exploration", quick_runs: 2500, thorough_runs: 6000 },
+    PropSpec { id: "C34", profile: "fl", level: "exploration", quick_runs: 1500, thorough_runs: 12000 },
 ];
 
 fn arg_value(args: &[String], flag: &str) -> Option<String> {
@@ -232,6 +232,53 @@ fn cmd_min(args: &[String]) -> i32 {
     0
 }
 
+/// `btsim kfcheck <findings.json> <profile> <n> [seed] [tier]` — triage aid: which violation
+/// signatures of n seeded runs are NOT matched by the (proposed) known-findings file.
+fn cmd_kfcheck(args: &[String]) -> i32 {
+    if args.len() < 3 {
+        eprintln!("usage: btsim kfcheck <findings.json> <profile|property> <n> [seed] [tier]");
+        return 2;
+    }
+    let known = match simcore::findings::load(std::path::Path::new(&args[0])) {
+        Ok(k) => k,
+        Err(e) => {
+            eprintln!("{}", e);
+            return 2;
+        }
+    };
+    let profile = full_profile(&args[1]);
+    let own = profile.split('@').nth(1).unwrap_or("").to_string();
+    let n: u64 = args[2].parse().unwrap_or(100);
+    let seed: u64 = args.get(3).and_then(|s| s.parse().ok()).unwrap_or(1);
+    let tier = Tier::parse(args.get(4).map(|s| s.as_str()).unwrap_or("quick"));
+    let base = pool::default_scratch_base();
+    let cfg = PoolCfg { workers: workers(), timeout: Duration::from_secs(120), scratch: base.join("kf"), deadline: None };
+    let jobs: Vec<u64> = (0..n).collect();
+    let res = pool::run_jobs(&cfg, &jobs, |j| Btsim.run_seeded(&profile, seed, j, tier));
+    pool::cleanup(&base);
+    let mut hits: std::collections::BTreeMap<String, u64> = Default::default();
+    let mut miss: std::collections::BTreeMap<String, (u64, u64)> = Default::default();
+    for (j, st) in res {
+        if let JobStatus::Done(o) = st {
+            for v in o.violations.iter().filter(|v| v.property == own) {
+                match simcore::findings::find_match(&known, v) {
+                    Some(f) => *hits.entry(f.id.clone()).or_insert(0) += 1,
+                    None => {
+                        let e = miss.entry(v.sig_string()).or_insert((0, j));
+                        e.0 += 1;
+                    }
+                }
+            }
+        }
+    }
+    println!("matched: {:?}", hits);
+    println!("unmatched signatures: {}", miss.len());
+    for (s, (c, j)) in miss {
+        println!("{:5}x run{} {}", c, j, s);
+    }
+    0
+}
+
 /// `btsim selfcheck determinism <profile> <n> [seed]`: every seed twice, at two worker counts and
 /// with differently padded environments.
 fn cmd_selfcheck(args: &[String]) -> i32 {
@@ -353,6 +400,7 @@ fn main() {
         Some("gen") => cmd_gen(&args[2..]),
         Some("case") => cmd_case(&args[2..]),
         Some("min") => cmd_min(&args[2..]),
+        Some("kfcheck") => cmd_kfcheck(&args[2..]),
         Some("selfcheck") => cmd_selfcheck(&args[2..]),
         Some("survey") => cmd_survey(&args[2..]),
         Some("list") => {
